@@ -149,6 +149,11 @@ def _ready_initial(ctx, mod):
     )
     if not src:
         return
+    # the local mapping that becomes state["waiting"]
+    wnames = [n.id for n in ast.walk(sd["waiting"]) if isinstance(n, ast.Name) and n.id not in ("dict",)] if "waiting" in sd else []
+    if len(wnames) != 1:
+        raise AnchorMissing("start_state_from_dask: cannot identify the local waiting map")
+    W = wnames[0]
     adds = find(f"{src}.add(M_k)", f, nested=False)
     ctx.count("ready_set_add_sites", len(adds))
     ctx.floor("ready_set_add_sites", 1)
@@ -167,16 +172,16 @@ def _ready_initial(ctx, mod):
                     if any(same(tb["M_k"], k) for _, tb in find("M_d.get(M_k, *M_r)", t) + find("M_d[M_k]", t)):
                         why = "no dependency outside the cache"
         # idiom 2: waiting[k] became empty after removing the resolved data key
-        if why is None and has_fact(facts, "M_w[M_k]", False, {"M_k": k}) is not None:
+        if why is None and has_fact(facts, f"{W}[M_k]", False, {"M_k": k}) is not None:
             rem = [
                 r
-                for r, rb in find("M_w[M_k].remove(M_x)", f, nested=False)
+                for r, rb in find(f"{W}[M_k].remove(M_x)", f, nested=False)
                 if same(rb["M_k"], k) and dominates(f, r, n)
             ]
             if rem:
                 why = "waiting set emptied by resolving a data node"
         # idiom 3: k is not waiting at all
-        if why is None and has_fact(facts, "M_k in M_w", False, {"M_k": k}) is not None:
+        if why is None and has_fact(facts, f"M_k in {W}", False, {"M_k": k}) is not None:
             why = "key has no waiting entry"
         ctx.ob(
             "DOM.ready-initial.guard",
@@ -186,7 +191,7 @@ def _ready_initial(ctx, mod):
             why or ("unguarded insertion; guards: " + "; ".join(fact_strs(facts))),
         )
     # waiting[key] is assigned exactly the missing dependencies
-    w = find("waiting[M_k] = M_v", f, nested=False)
+    w = find(f"{W}[M_k] = M_v", f, nested=False)
     for n, b in w:
         v = inline(b["M_v"], n, f)
         ok = any(True for _ in find("M_t.dependencies - set(M_c)", v))
@@ -338,3 +343,27 @@ def _needed_only(ctx, mod):
         if has_fact(facts, "M_k in seen", False, {"M_k": b["M_k"]}) is not None:
             ok = True
     ctx.ob("REACH.needed.visit-once", f, "if key in seen: continue ; seen.add(key)", ok, "" if ok else "no visited-set guard")
+
+
+# --------------------------------------------------------------------------- witness self-test (thorough)
+VARIANTS = [
+    (LOCAL, '        if not s:\n            del state["waiting"][dep]\n', '        if True:\n            del state["waiting"][dep]\n', "DOM.ready-append.empty-waiting"),
+    (LOCAL, '            del state["waiting"][dep]\n', "            pass\n", "PAIR.ready-append.del-waiting"),
+    (LOCAL, 'for dep in sorted(state["dependents"][key], key=sortkey, reverse=True):', 'for dep in sorted(state["dependencies"][key], key=sortkey, reverse=True):', "ranges-over-dependents"),
+    (LOCAL, '        s = state["waiting"][dep]\n        s.remove(key)\n', '        s = state["waiting"][dep]\n        s.discard(dep)\n', "removed-finished-key"),
+    (LOCAL, '                    state["running"].add(key)\n', "                    pass\n", "PAIR.pop-run.running-add"),
+    (LOCAL, "args[i * chunksize : (i + 1) * chunksize]", "args[i * chunksize : (i + 1) * chunksize + 1]", "ABS.batch.tiling"),
+    (LOCAL, "chunksize = max(-(ntasks // -num_workers), 1)", "chunksize = -(ntasks // -num_workers)", "ABS.batch.width-positive"),
+    (LOCAL, "                stack.append(dep)\n", "                stack.append(key)\n", "REACH.needed.push-dependencies"),
+    (LOCAL, "            if not _wait:\n", "            if _wait is not None:\n", "DOM.ready-initial.guard"),
+    (LOCAL, "    stack = list(keys)\n", "    stack = list(dsk)\n", "REACH.needed.seed"),
+    (LOCAL, "                    fut.add_done_callback(queue.put)\n", "                    pass\n", "PAIR.batch.done-callback"),
+    (LOCAL, "    ready_set = set()\n", "    ready_set = []\n", "DOM.ready-initial.from-set"),
+    ("dask/cache.py", "        self.durations = dict()\n", "        self.durations = dict()\n        state['ready'].append(None)\n", "OWN.state-writer"),
+]
+
+
+def selftest(ctx):
+    from ..variants import selftest as st
+
+    return st(ctx, "C02", VARIANTS)
